@@ -105,9 +105,6 @@ Proof.
   intros cs c s Hc. unfold rstrip. rewrite rev_app_distr. simpl. rewrite Hc. reflexivity.
 Qed.
 
-Lemma rstrip_nil : forall cs, rstrip cs [] = [].
-Proof. reflexivity. Qed.
-
 Theorem strip_q_dquote : forall s, strip_q ([34] ++ s ++ [34]) = strip_q s.
 Proof.
   intros s. unfold strip_q, strip.
@@ -160,6 +157,20 @@ Proof.
   - intros [|]; reflexivity.
   - exact strip_q_dquote.
 Qed.
+
+(* a concrete configuration: current_version 1.2.3, version_pattern MAJOR.MINOR.PATCH, tag_scope global,
+   commit and tag on, push off; the INI spelling (YES / off, values in double quotes) and the TOML
+   spelling are both accepted and give the same effective configuration *)
+Definition sample_cfg : abscfg :=
+  mkabs [49;46;50;46;51] [77;65;74;79;82;46;77;73;78;79;82;46;80;65;84;67;72] None None (Some s_global) None None
+        (Some true) (Some true) (Some false).
+
+Example formats_agree_instance :
+  parse_config_ini (raw_ini spell_yes_off quote_dq sample_cfg) = parse_config_toml (raw_toml sample_cfg) /\
+  parse_config_toml (raw_toml sample_cfg) =
+    Some (mkeff [49;46;50;46;51] [77;65;74;79;82;46;77;73;78;79;82;46;80;65;84;67;72] DEFAULT_COMMIT_MESSAGE DEFAULT_TAG_MESSAGE
+                s_global [] [] true true false true).
+Proof. vm_compute. split; reflexivity. Qed.
 
 (* ================================================================== C19 *)
 Lemma cf_eqb_str_eq : forall a b, eqb_str a b = true -> a = b.
